@@ -5,6 +5,7 @@
 import PsVerif.Lemmas.Greedy
 import PsVerif.Lemmas.SqrtOrder
 import PsVerif.Lemmas.GramAlg
+import PsVerif.Lemmas.Relabel
 import Mathlib.Data.Matrix.Mul
 import Mathlib.Tactic.FieldSimp
 import Mathlib.Tactic.Ring
@@ -177,5 +178,48 @@ theorem scale_invariant (G : RMat) (n : Nat) (hG : G.WF n n) (hnn : ∀ picks : 
       · exact schur_scale (s * s) hs0 _ q
   exact (greedy_simulation gramSys gramSys costs (fun c => s * costs c) _ hsim mask G
     (RMat.scale (s * s) G) ⟨⟨[], rfl⟩, rfl⟩ n k).1
+
+/-- **C18 (strict rankings are position-free).** Tie-breaking in the code is positional (first maximiser), but a
+sequence of picks each of which *strictly* beats every other unranked sensor is what the exact model produces,
+whatever the positions: `StrictGreedy` mentions sensors, residuals and costs only. -/
+theorem strict_ranking_unique (S : ResidSys σ) (costs : Nat → Rat) (s0 : σ) (n : Nat) (qs : List Nat)
+    (hnn : ∀ (picks : List Nat) (c : Nat), 0 ≤ S.norm2 (picks.foldl S.elim s0) c)
+    (h : StrictGreedy S costs s0 n qs) :
+    (greedyRunFrom S costs noMask s0 n qs.length).p.toList.take qs.length = qs :=
+  strict_greedy_unique S costs s0 n qs hnn h
+
+/-- **C18 (relabelling the sensors).** `B'` is `B` with its sensor rows relabelled (`B'` row `c` = `B` row `π c`) and
+the costs relabelled alike.  If the exact picks `qs` on `B` are strict at every step (no ties), the exact model's
+ranking of `B'` starts with the relabelled picks `qs.map π⁻¹`: selections are relabelled alike. -/
+theorem ranking_relabel_equivariant (B B' : RMat) (m : Nat) (hB : B.WF B.size m) (hB' : B'.WF B.size m)
+    (costs : Nat → Rat) (π πinv : Nat → Nat)
+    (hπ : ∀ c, c < B.size → π c < B.size ∧ πinv (π c) = c)
+    (hπ' : ∀ c, c < B.size → πinv c < B.size ∧ π (πinv c) = c)
+    (hrows : ∀ c, c < B.size → B'.row c = B.row (π c))
+    (qs : List Nat) (h : StrictGreedy gramSys costs (gram B) B.size qs) :
+    (greedyRunFrom gramSys (fun c => costs (π c)) noMask (gram B') B.size qs.length).p.toList.take qs.length
+      = qs.map πinv :=
+  relabel_equivariant_gram B B' m hB hB' costs π πinv hπ hπ' hrows qs h
+
+/-- where every choice of the model's own run is strict, its leading picks form a strictly greedy sequence – so the
+hypothesis of `ranking_relabel_equivariant` is exactly "the base run has no ties" (what the correspondence check
+decides with the exact model before comparing a relabelled pair) -/
+theorem run_without_ties_is_strict (S : ResidSys σ) (costs : Nat → Rat) (s0 : σ) (n k : Nat) (hk : k ≤ n)
+    (hnn : ∀ (picks : List Nat) (c : Nat), 0 ≤ S.norm2 (picks.foldl S.elim s0) c)
+    (hstrict : ∀ j, j < k → ∀ c, c < n →
+      c ∉ (greedyRunFrom S costs noMask s0 n k).p.toList.take (j + 1) →
+      scoreGe (S.norm2 (((greedyRunFrom S costs noMask s0 n k).p.toList.take j).foldl S.elim s0) c, costs c)
+              (S.norm2 (((greedyRunFrom S costs noMask s0 n k).p.toList.take j).foldl S.elim s0)
+                ((greedyRunFrom S costs noMask s0 n k).p.toList.getD j 0),
+               costs ((greedyRunFrom S costs noMask s0 n k).p.toList.getD j 0)) = false) :
+    StrictGreedy S costs s0 n ((greedyRunFrom S costs noMask s0 n k).p.toList.take k) :=
+  greedy_run_strict S costs s0 n k hk hnn hstrict
+
+/-- non-vacuity: the rows (3,0), (0,2), (1,1) with zero costs have the strict greedy sequence [0, 1]
+(squared norms 9, 4, 2; after removing the direction of sensor 0 the residuals are 0, 4, 1) -/
+example : StrictGreedy gramSys (fun _ => 0) (gram #[#[3, 0], #[0, 2], #[1, 1]]) 3 [0, 1] := by
+  unfold StrictGreedy
+  refine ⟨by decide, by decide, ?_⟩
+  decide +kernel
 
 end PsVerif
